@@ -509,6 +509,9 @@ class Model:
                         interp.event('unit-conversion-incompatible', node, src=repr(v.unit), dst=repr(unit), stmt=_text(node))
                     elif ok:
                         interp.event('unit-conversion', node, src=repr(v.unit), dst=repr(unit))
+        if unit_changes in (True, 'maybe') and v.dtype in INTS and (dtype is None or norm_dtype(dtype) in INTS):
+            # scipp converts integer variables in integer arithmetic and rounds the result
+            interp.event('int-unit-conversion', node, src=repr(v.unit), dst=repr(new_unit), dtype=v.dtype, stmt=_text(node))
         new_dtype = v.dtype
         dtype_changes = False
         if dtype is not None:
